@@ -1,5 +1,6 @@
 """C17 -- factory/template charts and their to_code text behave like hand-written charts."""
 import threading
+import types
 
 from miros.event import signals, Event, return_status as RS
 from miros.hsm import HsmWithQueues, state_method_template, spy_on
@@ -14,15 +15,36 @@ RULE = ('one generated spec is built (1) as a hand-written spied chart, (2) with
         'the sibling states; all builds are started in the same state and driven with the same event script; per step the ground-truth '
         'action log (entries, exits, inits, reactions, guard evaluations) and the rest state must be identical, and equal to the reference '
         'model. Specs include states without registered entry/exit/init, guard callbacks that decline, init callbacks that transition. '
-        'In every second case a SECOND template chart that shares the first chart\'s state names but has a different design (nesting, '
+        'In every third case a share of the callbacks are bound methods of a DELEGATE object (not of the chart), which the template calls with the event only. In every second case a SECOND template chart that shares the first chart\'s state names but has a different design (nesting, '
         'reactions, callbacks) is assembled after the first and is alive while the first runs; it is then driven itself and must follow '
         'its own design (reference model) - whatever one chart registers belongs to that chart only. '
         'distinct_nontrivial = distinct (build, states, transitions, declines) tuples')
 CASES = {'quick': 2500, 'thorough': 100000}
 BUDGET = {'quick': 150, 'thorough': 300}
 REQUIRE = {'template_builds': 1000, 'to_code_builds': 1000, 'factory_builds': 50, 'steps_compared': 20000, 'declines': 200,
-           'decoy_charts_alive_with_shared_state_names': 500}
+           'decoy_charts_alive_with_shared_state_names': 500, 'template_builds_with_delegate_callbacks': 300}
 ASSUME = ['signal and state names are Python identifiers (to_code emits signals.NAME and def NAME)']
+
+
+class Delegate:
+  """an object other than the chart that owns some of the callbacks (registered as bound methods: the template calls them
+  with the event only); it reaches the chart through its own attribute"""
+  def __init__(self):
+    self.chart = None
+
+
+def delegated(cbs, delegate, rng, share=0.4):
+  """replaces a share of the (chart, e) callbacks by bound methods of the delegate object"""
+  out = {}
+  for key, cb in cbs.items():
+    if rng.random() < share:
+      def method(self_, e, _cb=cb):
+        return _cb(self_.chart, e)
+      method.__name__ = cb.__name__
+      out[key] = types.MethodType(method, delegate)
+    else:
+      out[key] = cb
+  return out
 
 
 def make_callbacks(spec, log, fns, counter):
@@ -172,6 +194,12 @@ def run_case(ctx, n):
         raise cg.Budget()
       return HsmWithQueues.top(self, *a)
   c2 = Counted()
+  if n % 3 == 0:
+    # a share of the callbacks belong to a delegate object and are registered as bound methods
+    dlg = Delegate()
+    dlg.chart = c2
+    cbs2 = delegated(cbs2, dlg, rng)
+    ctx.count('template_builds_with_delegate_callbacks')
   build_template(c2, spec, cbs2, fns2)
   ctx.count('template_builds')
   # half of the cases: a SECOND template chart with the same state names but a different design (other nesting, other
